@@ -233,6 +233,7 @@ partial def parseLE (s : String) : Option LE :=
   | some ("and", l) => do some (LE.and (← parseLEs l))
   | some ("or", l) => do some (LE.or (← parseLEs l))
   | some ("not", [a]) => do some (LE.not (← parseLE a))
+  | some ("iff", [a, b]) => do some (LE.iff (← parseLE a) (← parseLE b))
   | _ => none
 partial def parseLEs (l : List String) : Option LEs :=
   match l with
